@@ -266,11 +266,10 @@ func (m *ruModel) rangesOf(f *kit.Func) *ruRanges {
 	}
 	r := &ruRanges{val: map[types.Object]*ast.RangeStmt{}, key: map[types.Object]*ast.RangeStmt{}}
 	info := f.Info()
-	ast.Inspect(f.Body, func(n ast.Node) bool {
-		rs, ok := n.(*ast.RangeStmt)
-		if !ok {
-			return true
-		}
+	// range statements and canonical counting loops (synthetic range statement
+	// with Key only); the element is named by the value variable or by a local
+	// defined once as X[key]
+	for _, rs := range f.SliceLoops(f.Body) {
 		if rs.Key != nil {
 			if o := kit.ObjOf(info, rs.Key); o != nil {
 				r.key[o] = rs
@@ -281,8 +280,12 @@ func (m *ruModel) rangesOf(f *kit.Func) *ruRanges {
 				r.val[o] = rs
 			}
 		}
-		return true
-	})
+		for o := range kit.ElemAliases(info, rs) {
+			if _, has := r.val[o]; !has {
+				r.val[o] = rs
+			}
+		}
+	}
 	m.ranges[f] = r
 	return r
 }
@@ -647,4 +650,31 @@ func (m *ruModel) copyRange(f *kit.Func, o types.Object, elem types.Type) *ast.R
 		return nil
 	}
 	return found
+}
+
+// ruOwnLoops lists the loops over a slice of f's own body (range statements
+// and canonical counting loops, the latter as synthetic range statements),
+// not those of nested function literals.
+func ruOwnLoops(f *kit.Func) []*ast.RangeStmt {
+	var lits []*ast.FuncLit
+	ast.Inspect(f.Body, func(n ast.Node) bool {
+		if l, ok := n.(*ast.FuncLit); ok {
+			lits = append(lits, l)
+			return false
+		}
+		return true
+	})
+	var out []*ast.RangeStmt
+	for _, rs := range f.SliceLoops(f.Body) {
+		inLit := false
+		for _, l := range lits {
+			if l.Pos() <= rs.Pos() && rs.End() <= l.End() {
+				inLit = true
+			}
+		}
+		if !inLit {
+			out = append(out, rs)
+		}
+	}
+	return out
 }
